@@ -431,7 +431,7 @@ fn enumerated() -> Vec<Case> {
 }
 
 pub fn run(ctx: &Ctx) -> i32 {
-    let (shards, cases) = ctx.tier.pick((8, 2500), (64, 30_000));
+    let (shards, cases) = ctx.tier.pick((16, 10000), (64, 30_000));
     let (mut stats, mut viol) = run_shards(ctx, "random", shards, cases, case_strategy, check_case);
     let en = enumerated();
     let (s2, v2) = par_enumerate(ctx, "enumerated", en.len() as u64, |i, stats| {
